@@ -414,6 +414,34 @@ class Interp:
         raise TypeError(node)
 
 
+def grammar_keywords(g: Grammar) -> tuple[set[str], set[str]]:
+    """(hard, soft) keywords of a grammar, read off its string literals: 'word' is a keyword, "word" a soft keyword."""
+    from pegen.grammar import StringLeaf
+
+    hard: set[str] = set()
+    soft: set[str] = set()
+
+    def walk(node: Any) -> None:
+        if isinstance(node, StringLeaf):
+            v = node.value
+            if v[1:-1].isidentifier():
+                (hard if v[0] == "'" else soft).add(v[1:-1])
+            return
+        if hasattr(node, "separator"):  # a Gather iterates over its element only
+            walk(node.separator)
+        if hasattr(node, "__iter__") and not isinstance(node, str):
+            for ch in node:
+                if isinstance(ch, list):
+                    for x in ch:
+                        walk(x)
+                else:
+                    walk(ch)
+
+    for r in g.rules.values():
+        walk(r)
+    return hard, soft
+
+
 def run(g: Grammar, rule: str, tokens: list[Any], keywords: set[str]) -> tuple[str, Any, int]:
     """('ok', value, end) | ('fail', None, 0) | ('forced', None, 0)"""
     it = Interp(g, tokens, keywords)
